@@ -42,6 +42,10 @@ def declare(P, config, with_optional=False, with_worker=False):
     elif config == "optimize":
         ps.ObjectiveMinimizeMakespan()
         cfg["optimizer"] = "optimize"
+    elif config == "multi":
+        # two objectives of the same direction: the incremental optimiser works on their weighted sum
+        ps.ObjectiveMinimizeMakespan()
+        ps.ObjectiveMinimizeFlowtime()
     elif config == "debug":
         cfg["debug"] = True
     elif config == "logics":
@@ -130,6 +134,7 @@ def ob_invariant(ctx, path):
     """after every operation: depth 1, stack == Base ++ blocking clauses (each one the exact clause of
     its find_another call), nothing else and nothing missing"""
     cur, base_ids, blocks, queries = None, None, [], 0
+    first_base = None
     for i, st in enumerate(ctx.steps):
         stub = st["stub"]
         if stub is None:
@@ -143,6 +148,15 @@ def ob_invariant(ctx, path):
         stack = st["stack"]
         if base_ids is None:
             base_ids = [a.get_id() for a in stack[: max(0, len(stack) - len(blocks))]]
+            def norm(a):  # debug mode: tracking literals are fresh per initialisation, the tracked assertion is what counts
+                if z3.is_implies(a) and z3.is_const(a.arg(0)) and a.arg(0).decl().name().startswith("asst_"):
+                    return a.arg(1).get_id()
+                return a.get_id()
+            nbase = {norm(a) for a in stack[: len(base_ids)]}
+            if first_base is None:
+                first_base = nbase
+            elif nbase != first_base:
+                return _witness(ctx, path, f"after op #{i} ({st['op']}) the re-initialised solver carries a different base constraint system ({len(nbase - first_base)} new, {len(first_base - nbase)} missing assertions)")
         if [a.get_id() for a in stack[: len(base_ids)]] != base_ids:
             return _witness(ctx, path, f"after op #{i} ({st['op']}) the base assertions changed")
         extra = stack[len(base_ids):]
@@ -233,6 +247,9 @@ def shapes(tier):
                     if sum(1 for o in seq if o in ("solve", "another", "another_var")) < 2:
                         continue
                 out.append(session_shape(PROP, seq, config, max_checks=4 if config.startswith("incremental") else 3))
+    for seq in [("solve",), ("solve", "solve"), ("solve", "another"), ("initialize", "solve"), ("initialize", "initialize"), ("solve", "initialize"),
+                ("solve", "initialize", "solve")]:
+        out.append(session_shape(PROP, seq, "multi", max_checks=4))
     return out
 
 
